@@ -285,6 +285,11 @@ def run_one(ctx, env, exporter, docname, target_state, k=None, stub_mode="ok", l
     case_crlf = target_state == "reexport_crlf"
     if case_crlf:
         target_state = "reexport"
+    the_doc = docs[docname]
+    derived = target_state == "derived"
+    if derived:
+        # the exported object is a model_copy(update={"df": ...}) of a document that was exported before
+        target_state = "absent"
     target = arena.reset("absent" if target_state == "reexport" else target_state, ext, stem)
     if target_state == "reexport":
         # the target already holds exactly what this export will produce (an earlier, identical export), but
@@ -302,9 +307,15 @@ def run_one(ctx, env, exporter, docname, target_state, k=None, stub_mode="ok", l
             with open(os.path.join(res, "old.png"), "wb") as f:
                 f.write(b"OLD")
         ctx.count("reexports_onto_identical_target")
+    if derived:
+        first = make_stub(stub_mode, arena) if exporter != "rtf" else None
+        call_export(the_doc, exporter, target, first)
+        the_doc = the_doc.model_copy(update={"df": the_doc.df.reverse()})
+        ctx.count("exports_of_derived_documents")
     before = snapshot(arena.out)
     stub = make_stub(stub_mode, arena) if exporter != "rtf" else None
-    case = {"exporter": exporter, "doc": docname, "target": "reexport_crlf" if case_crlf else target_state, "k": k,
+    case = {"exporter": exporter, "doc": docname,
+            "target": "reexport_crlf" if case_crlf else "derived" if derived else target_state, "k": k,
             "stub": stub_mode}
     if stem != "doc":
         case["stem"] = stem
@@ -314,7 +325,7 @@ def run_one(ctx, env, exporter, docname, target_state, k=None, stub_mode="ok", l
     raised = None
     inj.arm(k)
     try:
-        call_export(docs[docname], exporter, target, stub)
+        call_export(the_doc, exporter, target, stub)
     except InjectedFault as e:
         raised = e
     except Exception as e:  # noqa
@@ -413,6 +424,10 @@ def run_shard(desc, ctx):
                         ctx.count("stub_runs")
                         run_one(ctx, env, e, d, "reexport", stub_mode="html_resources" if e == "html" else "ok",
                                 stem=rng.choice(STEMS))
+                for e in ("rtf", "docx", "pdf", "html"):
+                    for d in ("col_a", "paged", "plain3"):
+                        ctx.count("stub_runs")
+                        run_one(ctx, env, e, d, "derived", stub_mode="html_resources" if e == "html" else "ok")
                 for d in ("col_a", "paged", "multi_a"):
                     # ... or to the new result with other line ends (a file that went through a Windows tool)
                     ctx.count("stub_runs")
